@@ -126,6 +126,8 @@ type Desc struct {
 	// the block is not decoded (too long / corrupt) and its COMPRESSED bytes are themselves accepted by the
 	// protobuf decoder (verdict of the real decoder; practically never)
 	FallbackParses bool `json:"fallback_parses,omitempty"`
+	// lokiproto: the stream's label string is `{job="a" <LblTail>}` (empty tail: a well-formed label set)
+	LblTail string `json:"lbl_tail,omitempty"`
 	// influx
 	Precision string `json:"precision"`
 	// lokijson
@@ -395,9 +397,13 @@ func promBody(r *rand.Rand, labelBytes int) []byte {
 	return b
 }
 
-func lokiProtoBody(r *rand.Rand) []byte {
+func lokiProtoBody(r *rand.Rand, tail string) []byte {
+	labels := `{app="a",lvl="info"}`
+	if tail != "" {
+		labels = `{job="a" ` + tail + `}`
+	}
 	pr := &logproto.PushRequest{Streams: []*logproto.StreamAdapter{{
-		Labels:  `{app="a",lvl="info"}`,
+		Labels:  labels,
 		Entries: []*logproto.EntryAdapter{{Timestamp: &logproto.Timestamp{Seconds: 1700000000, Nanos: int32(r.Intn(1000))}, Line: "hello"}},
 	}}}
 	b, err := proto.Marshal(pr)
@@ -445,6 +451,24 @@ func (c *Case) body(r *rand.Rand) []byte {
 
 func pick(r *rand.Rand, xs ...string) string { return xs[r.Intn(len(xs))] }
 
+// literal texts that status-deciding code of the repository compares error texts with (scanned from the source
+// by translate/gen_goroutines_writer on every run; --phrases-file). Placed at the start / in the middle of every
+// client-text field that can end up inside an error.
+var phrases = []string{"connection reset by peer"}
+
+func phraseText(r *rand.Rand) string {
+	p := phrases[r.Intn(len(phrases))]
+	switch r.Intn(4) {
+	case 0:
+		return p
+	case 1:
+		return p + " x"
+	case 2:
+		return "x " + p + " y"
+	}
+	return "x " + p
+}
+
 var goodTimes = []string{"1700000000", "1700000000000", "1700000000000000", "1700000000000000000", "1", "9", "18446744073709551615", "007", "2000000000000000000"}
 var badTimes = []string{"abc", "-5", "+5", "18446744073709551616", "1e9", " 12", "12 ", "1.5", "0x10", "99999999999999999999999", "1_000"}
 var names = []string{"app", "app.cpu", "app{}", "app{a=b}", "app{a=b,c=d}", "app{a}", "app{", "{", "x{a=b", "app{=}", "app{,}", "a{b=c}d", "app{a=b,c}", "app{a==b}", "{}", "{a=b}", "app{a=b}{c=d}", "app}", "a{b", "a{bc", "a{=,=}"}
@@ -459,6 +483,8 @@ func timeParam(r *rand.Rand) (string, string) {
 		return "", "empty"
 	case k < 16:
 		return "000", "zero"
+	case k < 18:
+		return phraseText(r), "phrase"
 	default:
 		return badTimes[r.Intn(len(badTimes))], "bad"
 	}
@@ -472,6 +498,10 @@ func genIngest(r *rand.Rand, c *Case) {
 	d.Name = names[r.Intn(len(names))]
 	if r.Intn(12) == 0 {
 		d.Name = ""
+	}
+	if r.Intn(12) == 0 {
+		t := phraseText(r)
+		d.Name = pick(r, t, t+"{", t+"{a=b}", "app{"+t+"}", "app{a="+t+"}", "{"+t)
 	}
 	pp := validPprof(r)
 	var body []byte
@@ -563,6 +593,8 @@ func zfield(r *rand.Rand, want int, allowAbsent bool) (*ZField, string) {
 		s := []byte(randHex(r, want))
 		s[r.Intn(len(s))] = "gz-_ x"[r.Intn(6)]
 		return &ZField{Str: string(s)}, "nonhex"
+	case k == 37 && r.Intn(2) == 0:
+		return &ZField{Str: phraseText(r)}, "phrase"
 	case k < 38:
 		// non-hex beyond the part that is kept
 		return &ZField{Str: randHex(r, want) + "zz"}, "long-nonhex-tail"
@@ -685,11 +717,14 @@ func pick1(r *rand.Rand, xs ...int) int { return xs[r.Intn(len(xs))] }
 func genSnappy(r *rand.Rand, c *Case) {
 	d := &Desc{WireOK: true}
 	var inner []byte
-	if r.Intn(3) == 0 {
+	if r.Intn(2) == 0 {
 		d.Route = "lokiproto"
 		d.CT = "application/x-protobuf"
 		c.Req.Path = "/loki/api/v1/push"
-		inner = lokiProtoBody(r)
+		if r.Intn(2) == 0 {
+			d.LblTail = pick(r, phraseText(r), phraseText(r), "oops", "x y", "lvl")
+		}
+		inner = lokiProtoBody(r, d.LblTail)
 	} else {
 		d.Route = "prom"
 		d.CT = pick(r, "application/x-protobuf", "")
@@ -723,6 +758,12 @@ func genSnappy(r *rand.Rand, c *Case) {
 		b := snappy.Encode(nil, inner)
 		c.Req.BodyHex = hex.EncodeToString(append([]byte{0x20}, b[1:len(b)/2]...))
 	}
+	if d.Snappy != "ok" || !d.WireOK {
+		d.LblTail = "" // the label string is never reached
+	}
+	if d.LblTail != "" {
+		c.Class += "/labels-garbage"
+	}
 	if d.Snappy != "ok" {
 		raw := (&Case{Req: c.Req}).body(r)
 		var msg proto.Message = &prompb.WriteRequest{}
@@ -748,7 +789,7 @@ func genLokiJSON(r *rand.Rand, c *Case) {
 
 func genInflux(r *rand.Rand, c *Case) {
 	d := &Desc{Route: "influx", WireOK: true, CT: "text/plain"}
-	d.Precision = pick(r, "", "ns", "us", "ms", "s", "zz", "NS", "m", "n s", "1")
+	d.Precision = pick(r, "", "ns", "us", "ms", "s", "zz", "NS", "m", "n s", "1", phraseText(r))
 	c.Class = "influx/precision-" + d.Precision
 	c.Req.Path = "/influx/api/v2/write"
 	if d.Precision != "" || r.Intn(2) == 0 {
@@ -775,7 +816,7 @@ func overlayCE(r *rand.Rand, c *Case) {
 			body = []byte("plainly not gzip") // (a pprof body is itself a gzip stream)
 		}
 	case 2:
-		c.D.CE = pick(r, "deflate", "br", "zstd", "identity", "GZIP", "gzip, deflate")
+		c.D.CE = pick(r, "deflate", "br", "zstd", "identity", "GZIP", "gzip, deflate", phraseText(r))
 	default:
 		c.D.CE, c.D.GzOK = "gzip", false
 		body = []byte{0x1f, 0x8b} // truncated header
@@ -823,7 +864,7 @@ func seeds(r *rand.Rand) []seed {
 	ing := []KV{{"from", "1700000000"}, {"until", "1700000010"}, {"name", "app{a=b}"}}
 	return []seed{
 		{"/loki/api/v1/push", nil, "application/json", lokiJSONBody(false)},
-		{"/loki/api/v1/push", nil, "application/x-protobuf", snappy.Encode(nil, lokiProtoBody(r))},
+		{"/loki/api/v1/push", nil, "application/x-protobuf", snappy.Encode(nil, lokiProtoBody(r, ""))},
 		{"/api/v1/prom/remote/write", nil, "application/x-protobuf", snappy.Encode(nil, promBody(r, 0))},
 		{"/influx/api/v2/write", []KV{{"precision", "ns"}}, "text/plain", []byte("logs,tag=a message=\"hello\" 1700000000000000000\ncpu,host=b value=1.5 1700000000000000001\n")},
 		{"/v1/logs", nil, "application/x-protobuf", otlpLogsSeed()},
@@ -954,7 +995,7 @@ func genBytes(r *rand.Rand, id int, sd []seed) Case {
 	q := append([]KV(nil), s.q...)
 	if len(q) > 0 && r.Intn(6) == 0 {
 		i := r.Intn(len(q))
-		q[i][1] = pick(r, "", "0", "-1", "x{", "{", "99999999999999999999", "zz", "a{b=c", strings.Repeat("9", 30))
+		q[i][1] = pick(r, "", "0", "-1", "x{", "{", "99999999999999999999", "zz", "a{b=c", strings.Repeat("9", 30), phraseText(r), phraseText(r))
 		how += "+param"
 	}
 	c.Class = s.path + " " + how
@@ -1279,9 +1320,18 @@ func main() {
 	from := flag.Int("from", 0, "worker: index of the first case to run")
 	nbytes := flag.Int("nbytes", 0, "number of byte-level (fuzz) cases")
 	deadlineMs := flag.Int("deadline-ms", 3000, "per-request deadline")
+	phrasesFile := flag.String("phrases-file", "", `JSON {"phrases":[...]}: texts the repository compares error texts with`)
 	maxBad := flag.Int("max-bad", 0, "stop after this many crash/hang/leak observations (0 = never)")
 	f := hx.ParseFlags()
 	deadline := time.Duration(*deadlineMs) * time.Millisecond
+	if *phrasesFile != "" {
+		var pf struct {
+			Phrases []string `json:"phrases"`
+		}
+		if b, err := os.ReadFile(*phrasesFile); err == nil && json.Unmarshal(b, &pf) == nil && len(pf.Phrases) > 0 {
+			phrases = pf.Phrases
+		}
+	}
 	if *workerMode {
 		worker(f.Cases, *from, deadline)
 		return
